@@ -12,7 +12,7 @@ from vf.props import _single as S
 ID = "C10"
 LEVEL = "exploration"
 SHARDS = {"quick": 1, "thorough": 16}
-N_QUICK, N_THOROUGH = 400, 3000
+N_QUICK, N_THOROUGH = 300, 3000
 RULE = ("case = (call graph: 1..4 contracted module functions (sync or async) + a class with 1..2 invariants and two "
         "public methods with contracts, 2 instances; SCRIPTS attached to conditions, captures, error factories, "
         "invariants and bodies = lists of 0..3 calls to any function / any method of any instance; body scripts are "
